@@ -21,7 +21,7 @@ def run(tier, prop="C15", clauses=CLAUSES, extra=None, limit=None, depth=None):
     cs = coord.configs(tier)[:limit] if limit else coord.configs(tier)
     depth = depth or (8 if quick else 10)
     with cf.ProcessPoolExecutor(max_workers=8) as ex:
-        res = list(ex.map(coord.explore_cfg, [(c, depth, base.seed()) for c in cs]))
+        res = list(ex.map(coord.explore_cfg, [(c, depth + (2 if len(c["ops"]) == 2 else 0), base.seed()) for c in cs]))      # two-operation instances are small: two levels deeper
         sres = list(ex.map(coord.simulate_cfg, [(c, 150 if quick else 1500, 30, base.seed() + i) for i, c in enumerate(cs)]))
     closed = True
     from . import conform
